@@ -28,7 +28,9 @@ RULE = ("histories of 1..6 manager start-ups against one device and one PIN file
         "refuse, status error, link error before apply, ack lost after apply, timeout}, file "
         "fault {none, open fails, write fails after truncation}, crash at each step boundary "
         "{unlock, change received, change applied, file open, file write, after write}, for "
-        "Ledger and SGX PIN commands; plus complete enumeration of all single-start scenarios; "
+        "Ledger and SGX PIN commands; complete enumeration of all single-start scenarios and of "
+        "PIN changes that happen inside a request after a reconnection; PIN generator under a "
+        "harness-controlled random source; "
         "non-trivial = history containing a PIN change attempt; distinct by history")
 ASSUMPTIONS = [
     "a crash freezes the world: every later device or file operation of the dying process has "
